@@ -225,6 +225,13 @@ class Repo:
         for need in MODULE_NAMES:
             if need not in self.modules and need != "test_factories":
                 raise AnalysisError(f"module eyecite/{need}.py is missing")
+        # helpers that are not functions of the reference tree are inlined back into their callers (sa/inline.py)
+        from .inline import inline_extras
+
+        self.inline_log = inline_extras({n: m.tree for n, m in self.modules.items()})
+        if self.inline_log:
+            for m in self.modules.values():
+                set_parents(m.tree)
         self.classes: Dict[str, ClassInfo] = {}
         for m in self.modules.values():
             for s in m.tree.body:
